@@ -17,6 +17,14 @@ class ToolError(Exception):
     pass
 
 
+class LibraryDied(Exception):
+    """The harness process ended abnormally while it was executing code of the library under test: a panic whose location is
+    not in the harness' own sources, or a fatal signal.  That is an observation about the library (data), not a tool failure."""
+    def __init__(self, sub, where, detail):
+        super().__init__("%s: %s" % (sub, where))
+        self.sub, self.where, self.detail = sub, where, detail
+
+
 def log(*a):
     print("[check]", *a, file=sys.stderr, flush=True)
 
@@ -87,6 +95,18 @@ def harness(args, timeout=3600, env_extra=None, check=True, stdin=None):
     log("harness %s: rc=%d %.1fs %s" % (args[0], p.returncode, time.time() - t0, p.stdout.strip()[-200:]))
     if check and p.returncode != 0:
         sys.stderr.write(p.stderr[-4000:])
+        m = re.findall(r"panicked at ([^\s:]+):(\d+):\d+:\n(.*)", p.stderr)
+        if p.returncode < 0:
+            raise LibraryDied(args[0], "signal %d" % -p.returncode, p.stderr[-1500:])
+        if m:
+            # a panic in the library, or an expectation of the driver about the library's behaviour on valid input that did not
+            # hold (`expect("sealing key parses")`): either way the tree under test did something the drivers, which pass on the
+            # unchanged tree, were not written for
+            where, line, msg = m[-1]
+            for pre in (REPO + "/", "/repo/", ROOT + "/"):
+                if where.startswith(pre):
+                    where = where[len(pre):]
+            raise LibraryDied(args[0], "panic at %s:%s: %s" % (where, line, msg.strip()[:160]), p.stderr[-1500:])
         raise ToolError("harness %s failed with rc=%d" % (args[0], p.returncode))
     return p
 
